@@ -54,6 +54,12 @@ func (p *Parser) ParseRecoverOperation(request []byte, batch bool) (*model.Opera
 		if schema.Delta.UpdateCommitment == signedData.RecoveryCommitment {
 			return nil, errors.New("recovery and update commitments cannot be equal, re-using public keys is not allowed")
 		}
+
+		// the next update commitment must not re-commit to the recovery key revealed by this operation either
+		err = p.validateCommitment(signedData.RecoveryKey, schema.Delta.UpdateCommitment)
+		if err != nil {
+			return nil, fmt.Errorf("validate next update commitment: %s", err.Error())
+		}
 	}
 
 	err = hashing.IsValidModelMultihash(signedData.RecoveryKey, schema.RevealValue)
